@@ -3,7 +3,11 @@
 //! One uniform hash column with the all-zero salt: with the `instrumentation` feature `hash_key`
 //! is then the identity on 32-byte keys, so the harness chooses index pages (top bits of the key)
 //! and partial keys directly.  Every key carries a unique id in bytes 8..12, i.e. in its 26-byte
-//! tail (assumption A-tail), and at most 8 keys share one 50-bit index-visible prefix.
+//! tail (assumption A-tail), and in the random cases at most 8 keys share one 50-bit index-visible
+//! prefix.  Directed cases go beyond both limits and report what the crate then does as KNOWN
+//! findings (`t.known`): F28 (more than 64 index entries of one 50-bit class, live or stale: the
+//! growth never completes) and F29 (two hashed keys equal in bytes 6..32: a stale entry resolves to
+//! the other key's value).
 //!
 //! Trace protocol: command `c09` of the Lean driver (see lean/Pdb/Model/Index.lean).  The
 //! `set` / `del` lines of a transaction are emitted when the transaction is PLANNED
@@ -236,7 +240,18 @@ struct Sut {
 	/// record in which a DropTable was logged and not yet enacted
 	pending_drop: Option<usize>,
 	dead: bool,
+	/// what the records of the log file being appended to contain (FLAG_*)
+	cur_flags: u8,
+	/// the same per flushed, not yet enacted log file (parallel to `files`)
+	file_flags: VecDeque<u8>,
+	/// the same per enacted, not yet reclaimed log file: a crash image taken now makes recovery
+	/// replay these records over tables that already hold their effects
+	dirty_flags: Vec<u8>,
 }
+
+const FLAG_GROWTH: u8 = 1;
+const FLAG_DROP: u8 = 2;
+const FLAG_BATCH: u8 = 4;
 
 impl Sut {
 	fn with_db(dir: PathBuf, db: Db) -> Sut {
@@ -252,6 +267,9 @@ impl Sut {
 			n_enacted: 0,
 			pending_drop: None,
 			dead: false,
+			cur_flags: 0,
+			file_flags: Default::default(),
+			dirty_flags: vec![],
 		}
 	}
 	fn create(dir: PathBuf) -> Sut {
@@ -265,6 +283,8 @@ impl Sut {
 		self.db().flush_logs().expect("flush_logs");
 		if self.logged_unflushed > 0 {
 			self.files.push_back(self.logged_unflushed);
+			self.file_flags.push_back(self.cur_flags);
+			self.cur_flags = 0;
 			self.logged_unflushed = 0;
 			self.n_flushed = self.n_records;
 		}
@@ -272,6 +292,7 @@ impl Sut {
 	fn clean(&mut self) {
 		self.db().clean_logs().expect("clean_logs");
 		self.dirty = 0;
+		self.dirty_flags.clear();
 	}
 	/// enact one flushed log file
 	fn enact_one(&mut self) -> bool {
@@ -282,6 +303,8 @@ impl Sut {
 		if let Some(c) = self.files.pop_front() {
 			self.n_enacted += c;
 			self.dirty += 1;
+			let f = self.file_flags.pop_front().unwrap_or(0);
+			self.dirty_flags.push(f);
 			true
 		} else {
 			false
@@ -325,6 +348,17 @@ struct Case<'a> {
 	peak_slots: BTreeMap<u8, usize>,
 	cur_slots: BTreeMap<u8, usize>,
 	last_stat: Stat,
+}
+
+/// a crash image and what was known when it was taken
+struct Snap {
+	img: PathBuf,
+	phase: &'static str,
+	/// records flushed (synced) / planned when the image was taken
+	lo: usize,
+	hi: usize,
+	unenacted_files: usize,
+	dirty: usize,
 }
 
 impl<'a> Case<'a> {
@@ -465,12 +499,17 @@ impl<'a> Case<'a> {
 		self.emit("c09 stat", &st.line());
 		if st.cur.0 > self.last_stat.cur.0 {
 			self.ctr.inc(if is_batch { "growth.triggered_by_batch" } else { "growth.triggered_by_commit" });
+			self.sut.cur_flags |= FLAG_GROWTH;
+		}
+		if is_batch {
+			self.sut.cur_flags |= FLAG_BATCH;
 		}
 		if st.cur.0 > self.max_bits {
 			self.max_bits = st.cur.0;
 		}
 		if st.drop_pending() && self.sut.pending_drop.is_none() {
 			self.sut.pending_drop = Some(self.sut.n_records);
+			self.sut.cur_flags |= FLAG_DROP;
 		}
 		self.stat_at.push(st.clone());
 		self.last_stat = st;
@@ -626,6 +665,13 @@ impl<'a> Case<'a> {
 		if self.sut.dead {
 			return
 		}
+		let snap = self.snapshot(rng, root, tag, true);
+		self.recover(snap);
+	}
+
+	/// Copy of the directory as a crash would leave it.  The log files that were enacted but not
+	/// reclaimed are part of it: recovery replays them over tables that already hold their effects.
+	fn snapshot(&mut self, rng: &mut Rng, root: &Path, tag: &str, allow_cut: bool) -> Snap {
 		let phase = self.last_stat.phase();
 		let img = fresh_dir(root, &format!("{}-img{}", tag, rng.below(1 << 24)));
 		copy_dir(&self.sut.dir, &img);
@@ -633,7 +679,7 @@ impl<'a> Case<'a> {
 		// cut the unsynced tail: only the log file being appended to has unsynced bytes; it is
 		// the most recently modified non-empty one
 		let mut cut = false;
-		if self.sut.logged_unflushed > 0 && rng.chance(2, 3) {
+		if allow_cut && self.sut.logged_unflushed > 0 && rng.chance(2, 3) {
 			let mut best: Option<(std::time::SystemTime, PathBuf, u64)> = None;
 			for e in std::fs::read_dir(&self.sut.dir).unwrap() {
 				let e = e.unwrap();
@@ -662,10 +708,31 @@ impl<'a> Case<'a> {
 		}
 		self.ctr.inc(if cut { "crash.cut_tail" } else { "crash.boundary" });
 		self.ctr.inc(&format!("crash.phase.{}", phase));
-		let lo = self.sut.n_flushed;
-		let hi = self.sut.n_records;
-		let unenacted_files = self.sut.files.len();
-		let dirty = self.sut.dirty;
+		// replay over tables that already contain the records' effects
+		self.ctr.inc(&format!("crash.retained_enacted_files.{}", std::cmp::min(self.sut.dirty_flags.len(), 3)));
+		let all = self.sut.dirty_flags.iter().fold(0u8, |a, b| a | b);
+		if all & FLAG_GROWTH != 0 {
+			self.ctr.inc("crash.retained_enacted.growth_record");
+		}
+		if all & FLAG_DROP != 0 {
+			self.ctr.inc("crash.retained_enacted.drop_record");
+		}
+		if all & FLAG_BATCH != 0 {
+			self.ctr.inc("crash.retained_enacted.reindex_batch");
+		}
+		Snap {
+			img,
+			phase,
+			lo: self.sut.n_flushed,
+			hi: self.sut.n_records,
+			unenacted_files: self.sut.files.len(),
+			dirty: self.sut.dirty,
+		}
+	}
+
+	/// Abandon the live handle, open the image, identify the record prefix it recovered to.
+	fn recover(&mut self, snap: Snap) {
+		let Snap { img, phase, lo, hi, unenacted_files, dirty } = snap;
 		// abandon the live handle and its directory
 		let old = self.sut.dir.clone();
 		self.sut.abandon();
@@ -1499,6 +1566,214 @@ fn steady_case(seed: u64, root: &Path, t: &mut Trace, ctr: &mut Counters, prop: 
 	finish(c)
 }
 
+/// F28: more than 64 index entries share the index page at every index size the format allows
+/// (here: all 50 index-visible bits).  Growth cannot split them, so every reindex pass ends in
+/// another growth and the index never settles.
+///   variant 0  65 live keys of one 50-bit class
+///   variant 1  64 live keys of one class; one more key in the same 16-bit page (another 17-bit
+///              page) triggers the only legitimate growth; before the first reindex batch every
+///              one of the 64 is overwritten with a value of another size tier: the entries left
+///              behind in the old table (their slots are free) are copied by the batch like live
+///              ones, the class then has 128 entries
+/// Bounded: two batches (index bits 17 -> 18 -> 19), then the case stops.
+fn directed_class_overflow(seed: u64, root: &Path, t: &mut Trace, ctr: &mut Counters, prop: &str, flags: Flags) -> bool {
+	let mut rng = Rng::new(seed);
+	let stale = (seed >> 5) & 1 == 1;
+	let class: u64 = rng.next() & !0x3fff;
+	let mut keys: Vec<Key> = (0..64u64).map(|i| mk_key(class | rng.below(1 << 14), 1 + i as u32)).collect();
+	if stale {
+		// same 16-bit page, other 17-bit page
+		keys.push(mk_key((class ^ (1 << 47)) | rng.below(1 << 14), 65));
+	} else {
+		keys.push(mk_key(class | rng.below(1 << 14), 65));
+	}
+	let kind = if stale { "directed-stale-class-overflow" } else { "directed-class-overflow" };
+	let mut c = new_case(seed, kind, &format!("class={:013x}", class >> 14), true, root, t, ctr, prop, flags, keys.clone());
+	let small = c.vals.token(4, 1);
+	let big = c.vals.token(100, 3);
+	c.commit(keys[0..64].iter().map(|k| Op::Set(*k, small.clone())).collect());
+	c.drain();
+	c.commit(vec![Op::Set(keys[64], small.clone())]); // the page overflows: 16 -> 17 bits
+	if stale {
+		// queued behind the growth, planned before any reindex batch can run
+		c.commit(keys[0..64].iter().map(|k| Op::Set(*k, big.clone())).collect());
+	}
+	c.drain();
+	c.check_all(true);
+	let start_bits = c.last_stat.cur.0;
+	let mut every_batch_grew = !c.sut.dead && start_bits == 17 && !c.last_stat.older.is_empty();
+	let mut trail = vec![c.last_stat.line()];
+	for i in 0..2u8 {
+		if c.sut.dead || c.last_stat.older.is_empty() {
+			every_batch_grew = false;
+			break
+		}
+		c.reindex();
+		c.drain();
+		c.check_all(true);
+		trail.push(c.last_stat.line());
+		if c.last_stat.cur.0 != start_bits + i + 1 || c.last_stat.older.is_empty() {
+			every_batch_grew = false;
+		}
+	}
+	if every_batch_grew {
+		c.ctr.inc("finding.growth_never_completes");
+		let what = if stale {
+			"64 live keys of one 50-bit class + the entries left in the old table by one size-tier change of each (128 index entries of the class)"
+		} else {
+			"65 live keys sharing all 50 index-visible bits"
+		};
+		let p = c.prop.clone();
+		c.t.known(
+			&p,
+			"F28",
+			&format!(
+				"INDEX-GROWTH-NEVER-COMPLETES: {}: every reindex batch ended in another growth ({}); all keys still readable; stopped at {} index bits",
+				what,
+				trail.join(" => "),
+				c.last_stat.cur.0
+			),
+		);
+	}
+	finish(c)
+}
+
+/// F29: two hashed keys that differ only in bytes 0..5 (A-tail violated: same stored 26-byte
+/// tail, different index page).  k1 is moved to another size tier while it lives in the old index
+/// table (its old entry stays there), k2 takes the freed slot, k1 is removed: `get(k1)` now finds
+/// the stale entry, `has_key_at` compares the stored tail only and accepts k2's slot.
+fn directed_twin(seed: u64, root: &Path, t: &mut Trace, ctr: &mut Counters, prop: &str, flags: Flags) -> bool {
+	let mut rng = Rng::new(seed);
+	let page: u64 = rng.below(1 << 16) << 48;
+	let low: u64 = rng.below(1 << 16); // bytes 6, 7: part of the stored tail
+	let k1 = mk_key(page | (rng.below(1 << 30) << 16) | low, 1);
+	let mut k2 = k1;
+	let other_page = (page >> 48) ^ (1 + rng.below(0xffff));
+	k2[0..2].copy_from_slice(&(other_page as u16).to_be_bytes());
+	k2[2..6].copy_from_slice(&(rng.next() as u32).to_be_bytes());
+	assert_eq!(k1[6..32], k2[6..32]);
+	assert_ne!(k1[0..2], k2[0..2]);
+	let mut keys = vec![k1, k2];
+	for i in 0..63u64 {
+		keys.push(mk_key(page | ((i + 1) << 41) | rng.below(1 << 14), 100 + i as u32));
+	}
+	keys.push(mk_key(page | (1 << 47) | (1 << 30), 999));
+	let mut c = new_case(seed, "directed-twin-tail", "", true, root, t, ctr, prop, flags, keys.clone());
+	let small = c.vals.token(4, 1);
+	let small2 = c.vals.token(4, 2);
+	let big = c.vals.token(100, 3);
+	let mut tx = vec![Op::Set(k1, small.clone())];
+	for k in &keys[2..65] {
+		tx.push(Op::Set(*k, small.clone()));
+	}
+	c.commit(tx);
+	c.drain();
+	c.commit(vec![Op::Set(keys[65], small.clone())]); // growth: k1 now lives in the old table
+	c.drain();
+	c.commit(vec![Op::Set(k1, big.clone())]); // moved: the entry in the old table stays
+	c.drain();
+	c.commit(vec![Op::Set(k2, small2.clone())]); // takes the slot k1 left
+	c.drain();
+	c.check_all(true);
+	c.commit(vec![Op::Del(k1)]);
+	c.drain();
+	let mut wrong: Vec<String> = vec![];
+	if !c.sut.dead {
+		let g1 = c.get_obs(&k1);
+		c.emit(&format!("c09 get {}", hex(&k1)), &g1);
+		let g2 = c.get_obs(&k2);
+		c.emit(&format!("c09 get {}", hex(&k2)), &g2);
+		if g1 != "none" {
+			wrong.push(format!("after `del k1`: get(k1) = {} (the value of k2), expected none", g1));
+		}
+		if g2 != format!("some {}", small2) {
+			wrong.push(format!("after `del k1`: get(k2) = {}, expected some {}", g2, small2));
+		}
+	}
+	// the removal of the (absent) key k1 goes through the stale entry as well
+	c.commit(vec![Op::Del(k1)]);
+	c.drain();
+	if !c.sut.dead {
+		let g2 = c.get_obs(&k2);
+		c.emit(&format!("c09 get {}", hex(&k2)), &g2);
+		if g2 != format!("some {}", small2) {
+			wrong.push(format!("after a second `del k1`: get(k2) = {}, expected some {} (k2's slot was freed)", g2, small2));
+		}
+		let st = obs_stat(c.sut.db());
+		c.emit("c09 stat", &st.line());
+	}
+	if !wrong.is_empty() {
+		c.ctr.inc("finding.twin_tail_misattribution");
+		let p = c.prop.clone();
+		c.t.known(
+			&p,
+			"F29",
+			&format!("TWIN-TAIL-MISATTRIBUTION: k1={} k2={} (equal in bytes 6..32): {}", hex(&k1), hex(&k2), wrong.join("; ")),
+		);
+	}
+	c.ctr.inc(&format!("growth.max_bits.{}", c.max_bits));
+	c.sut.abandon();
+	let _ = std::fs::remove_dir_all(&c.sut.dir);
+	c.t.end_case(true);
+	c.ctr.inc("cases");
+	c.ctr.inc("cases.nontrivial");
+	c.ok
+}
+
+/// Recovery replays log records over tables that ALREADY hold their effects (C09_replay_absorbs).
+///   variant 0  the log file with the growth record (first write into the new index table, which
+///              creates its file) has been enacted but not reclaimed; later records (a new key, the
+///              removal of a key that lives in the old table) are flushed only
+///   variant 1  half-enacted growth record: the image has the new index file as the enactment
+///              leaves it, but the value tables and the old index as they were before it
+fn directed_replay_over_enacted(seed: u64, root: &Path, t: &mut Trace, ctr: &mut Counters, prop: &str, flags: Flags) -> bool {
+	let mut rng = Rng::new(seed);
+	let half = (seed >> 5) & 1 == 1;
+	let page: u64 = rng.below(1 << 16) << 48;
+	let mut keys = vec![];
+	for i in 0..66u64 {
+		keys.push(mk_key(page | (i << 41) | rng.below(1 << 14), 1 + i as u32));
+	}
+	let kind = if half { "directed-half-enacted-growth" } else { "directed-replay-over-enacted" };
+	let mut c = new_case(seed, kind, "", true, root, t, ctr, prop, flags, keys.clone());
+	let tag = format!("c09-{}", seed);
+	let small = c.vals.token(4, 1);
+	let mid = c.vals.token(45, 2);
+	c.commit(keys[0..64].iter().map(|k| Op::Set(*k, small.clone())).collect());
+	c.drain();
+	c.commit(vec![Op::Set(keys[64], mid.clone())]); // growth record
+	c.process();
+	c.sut.flush();
+	if half {
+		let snap = c.snapshot(&mut rng, root, &tag, false);
+		c.enact_one(); // creates index_00_17 and writes the record's value slots
+		let newf = format!("index_00_{}", c.last_stat.cur.0);
+		match std::fs::copy(c.sut.dir.join(&newf), snap.img.join(&newf)) {
+			Ok(_) => c.ctr.inc("crash.half_enacted_growth_record"),
+			Err(e) => c.fail(&format!("no new index file {} after enacting the growth record: {:?}", newf, e)),
+		}
+		c.recover(snap);
+	} else {
+		c.enact_one(); // enacted, log file retained
+		let victim = keys[rng.below(64) as usize];
+		c.commit(vec![Op::Set(keys[65], small.clone()), Op::Del(victim)]);
+		c.process();
+		c.sut.flush(); // flushed + synced, not enacted
+		c.check_all(true);
+		c.crash(&mut rng, root, &tag);
+	}
+	c.check_all(true);
+	// the interrupted growth is continued
+	for _ in 0..4 {
+		if c.sut.dead || c.last_stat.older.is_empty() {
+			break
+		}
+		c.drain();
+		c.reindex();
+	}
+	finish(c)
+}
+
 // ----------------------------------------------------------------------------- fix detection
 
 /// Which of the delivered fixes does the crate under test contain?  (The model follows.)
@@ -1572,7 +1847,12 @@ pub fn run(seeds: &[u64], thorough: bool, root: &Path, t: &mut Trace, ctr: &mut 
 	t.stat("crate.fix.sse2_partial_key", if flags.exact { "1" } else { "0" });
 	t.stat("crate.fix.move_into_full_page", if flags.grow { "1" } else { "0" });
 	let mut fails = 0;
-	for &seed in seeds {
+	// scenario coverage does not depend on luck: in a run of at least 16 cases the first seven seeds
+	// are moved to the nearest seed of each directed kind below (the adjusted seed is the one printed
+	// in the case header, so `--case-seed` replays it)
+	let forced: [u64; 7] = [6, 6 + 32, 7, 8, 8 + 32, 1, 0];
+	for (idx, &seed0) in seeds.iter().enumerate() {
+		let seed = if seeds.len() >= 16 && idx < forced.len() { (seed0 & !63) | forced[idx] } else { seed0 };
 		let ok = match seed % 16 {
 			0 => directed_sse2(seed, root, t, ctr, prop, flags),
 			1 => directed_drop_crash(seed, root, t, ctr, prop, flags),
@@ -1580,6 +1860,11 @@ pub fn run(seeds: &[u64], thorough: bool, root: &Path, t: &mut Trace, ctr: &mut 
 			3 if thorough || seed % 32 == 3 => big_case(seed, root, t, ctr, prop, flags),
 			4 => steady_case(seed, root, t, ctr, prop, flags),
 			5 if prop == "C14" => steady_case(seed, root, t, ctr, prop, flags),
+			// seed % 32 = 6: 65 live keys of one class, 38 (bit 5 set): stale variant (known finding F28 of C09)
+			6 if seed % 32 == 6 && prop == "C09" => directed_class_overflow(seed, root, t, ctr, prop, flags),
+			7 if seed % 32 == 7 => directed_twin(seed, root, t, ctr, prop, flags),
+			// bit 5 of the seed selects the half-enacted variant
+			8 if seed % 32 == 8 => directed_replay_over_enacted(seed, root, t, ctr, prop, flags),
 			_ => random_case(seed, thorough, root, t, ctr, prop, flags),
 		};
 		if !ok {
